@@ -206,6 +206,11 @@ fn first_difference(a: &[Op], b: &[Op]) -> Option<usize> {
 }
 
 fn short(op: &Op) -> String {
+    if let Op::Extension(v) = op {
+        if v.len() > 64 {
+            return format!("Extension(len={}, head={:?}...)", v.len(), &v[..32]);
+        }
+    }
     let mut s = format!("{op:?}");
     if s.len() > 300 {
         let mut cut = 300;
